@@ -78,7 +78,7 @@ def verify_function(program, lib, qual, timeout_ms=10000, only=None, shard=None,
             if max_fail and nfail >= max_fail:
                 out["obligations"].append(dict(id=ident_k, kind=ob.kind, line=ob.lineno, status="skipped", time_s=0))
                 continue
-            r = smt.discharge(ob.premises, g, timeout_ms)
+            r = smt.discharge(ob.premises, g, timeout_ms, hint_arrays=getattr(ob, "hint_arrays", None))
             if r["status"] != "proved":
                 nfail += 1
             r.update(id=ident_k, kind=ob.kind, line=ob.lineno)
